@@ -7,9 +7,21 @@ CLAIMED = {
         "technique": "guard dominance on MIR (capture sites under the step test), totality of the Option-returning filter translator on HIR, must-precede of the negation check",
         "level": P + "Every site recording an event in a run is dominated by the step's type+predicate test; the VPL->SASE filter translator has no None path (callers drop the filter on None); global negations are applied before runs advance in all three entry points.",
     },
+    "C02": {
+        "technique": "must-precede on MIR, match-arm table of the two run loops against a contract table on HIR, single-capture reachability",
+        "level": P + "Existing runs advance before a run is started with the same event in every entry point; both run loops remove a run exactly on Complete/CompleteMulti/Invalidate and keep it otherwise; after a capture no second capture of the same event is reachable. That the emitted match is the earliest is not decided.",
+    },
     "C03": {
         "technique": "guard dominance / loop re-test analysis on MIR (R-GUARD)",
         "level": P + "Kleene events are accumulated only past the next_var >= max_events test; every pushed match is followed by a results.len() >= max_results re-test that leaves the loop (or the loop runs over take(max_results) with no filter in between), so the cap bounds emitted matches, not examined combinations; limits come from the configured fields. Which subsets are produced is not decided.",
+    },
+    "C04": {
+        "technique": "keyed-state discipline (R-KEYED): classification of every map operation on per-partition containers with key provenance slices through closures and callers",
+        "level": P + "Every keyed access to partitioned_runs and the partitioned windows' maps uses Value::to_partition_key of the event's configured partition field; whole-map walks occur only in the listed time-driven / checkpoint / statistics / global-negation functions.",
+    },
+    "C05": {
+        "technique": "who-may-grow + guard dominance on MIR, sibling strategy-arm agreement on HIR, integer-arithmetic site scan, caps shared with C03",
+        "level": P + "Runs are pushed only in the two backpressure functions, under len < max_runs or after an eviction (four empty-vector branches listed, max_runs == 0 only); both functions agree per strategy and with the documented behaviour; no panicking integer arithmetic on event-derived values in the SASE event path; Kleene caps as C03. Index panics depending on NFA construction are not decided.",
     },
     "C06": {
         "technique": "recursion-term extraction (R-SHAPE) on HIR compared with the ZDD recurrences",
@@ -30,6 +42,26 @@ CLAIMED = {
     "C12": {
         "technique": "must-pass-through / at-most-once of the buffer push, forward flow of drained batches, comparison normal forms and marker co-mutation on MIR",
         "level": P + "In each add_shared the arriving event is stored exactly once on every path and drained batches reach the caller; tumbling closes iff event_time >= window_start + duration, session iff event_time - last > gap, count iff len >= count after the push; window_start / last_event_time are reset only together with a buffer drain; partitioned windows delegate to the plain ones.",
+    },
+    "C13": {
+        "technique": "normalised condition / statement-shape extraction on HIR",
+        "level": P + "Count-sliding: stores and counts each event once, trims to the last N by a prefix drain, emits exactly under len >= window_size && events_since_emit >= slide_size, returns the whole buffer and resets the counter only then. Time-sliding: prefix eviction by event_time - window_size and slide test against last_emit + slide_interval (strictness not demanded). Partitioned variants delegate.",
+    },
+    "C14": {
+        "technique": "co-mutation (must-pass-through with a cache-known-empty edge) on MIR and sibling feature agreement over the call graph",
+        "level": P + "Every ColumnarBuffer method that changes the buffered events also updates timestamps and invalidates the column cache on all paths; for each aggregate the overridden row / shared / columnar paths agree on NaN filtering and field access, and trait defaults delegate. Numeric results are not decided.",
+    },
+    "C15": {
+        "technique": "binary-search precondition (R-SORTED): writers of the searched vector type on MIR",
+        "level": "One clause only: the per-key vector searched with partition_point in the join buffer must be kept sorted by its writers. The rest of the join semantics is not decided.",
+    },
+    "C16": {
+        "technique": "entry-point / kernel reachability agreement over the call graph, sibling constants on HIR, guard dominance of output requeueing on MIR",
+        "level": P + "Each of the four engine entry points reaches each operator kernel (or none does), the chain-depth constants agree, and stream outputs are queued / emitted only in renamed form.",
+    },
+    "C17": {
+        "technique": "guard dominance in add_route, who-may-write the routing table, lookup-key provenance, requeue discipline shared with C16",
+        "level": P + "No duplicate routes can be registered, the routing table is written only through add_route/clear, every entry point looks routes up by the current event's own type, chain depth constants agree and un-renamed outputs are never re-routed.",
     },
     "C30": {
         "technique": "who-may-write on the field index, guard normal forms and provenance of panicking float->Duration conversions on MIR",
